@@ -463,6 +463,71 @@ fn case(sub: &str, id: u64, r: &mut Report) {
     }
 }
 
+/// `==` must separate generators with different futures: M Hc128Rng from M distinct
+/// seeds are compared pairwise (tiled so that both sides of a tile stay in cache; the
+/// real `==` stops at the first differing word, a few ns per pair). A comparison that
+/// looks at a digest of the 4 KiB table instead of the table (2^-32 per pair for a
+/// 32-bit digest) needs about 2^32 pairs: M = 180 000 in the main stage (2^33.9 pairs,
+/// about 4 expected digest collisions), M = 2^15 in the other build configurations.
+fn pairwise_ne(ctx: &Ctx, r: &mut Report) {
+    use rand_core::{RngCore, SeedableRng};
+    let reduced = crate::util::REDUCED.load(std::sync::atomic::Ordering::Relaxed);
+    let m: usize = if reduced { 64 } else if (ctx.tier_thorough && ctx.scale >= 1.0) || ctx.scale >= 3.0 { 180_000 } else { 1 << 15 };
+    let mk = |k: usize| -> [u8; 32] {
+        let mut p = Prng::new(ctx.seed.wrapping_mul(0x9e37_79b9).wrapping_add(k as u64) ^ 0x7061_6972);
+        let mut s: [u8; 32] = p.bytes(32).try_into().unwrap();
+        s[..8].copy_from_slice(&(k as u64).to_le_bytes()); // distinct by construction
+        s
+    };
+    let threads = ctx.threads.max(1);
+    // construction in parallel
+    let parts: Vec<Vec<rand_hc::Hc128Rng>> = {
+        let mut slots: Vec<Vec<rand_hc::Hc128Rng>> = (0..threads).map(|_| Vec::new()).collect();
+        std::thread::scope(|sc| {
+            for (t, slot) in slots.iter_mut().enumerate() {
+                let mk = &mk;
+                sc.spawn(move || {
+                    let (lo, hi) = (t * m / threads, (t + 1) * m / threads);
+                    for k in lo..hi { slot.push(rand_hc::Hc128Rng::from_seed(mk(k))); }
+                });
+            }
+        });
+        slots
+    };
+    let gens: Vec<rand_hc::Hc128Rng> = parts.into_iter().flatten().collect();
+    const TILE: usize = 128;
+    let tiles = (m + TILE - 1) / TILE;
+    let found = std::sync::atomic::AtomicBool::new(false);
+    let rep = crate::util::par(threads, |t, r| {
+        let mut pairs = 0u64;
+        for ti in (t..tiles).step_by(threads) {
+            for tj in ti..tiles {
+                if found.load(std::sync::atomic::Ordering::Relaxed) { return; }
+                let (a0, a1) = (ti * TILE, ((ti + 1) * TILE).min(m));
+                let (b0, b1) = (tj * TILE, ((tj + 1) * TILE).min(m));
+                for i in a0..a1 {
+                    for j in b0.max(i + 1)..b1 {
+                        pairs += 1;
+                        if gens[i] == gens[j] {
+                            found.store(true, std::sync::atomic::Ordering::Relaxed);
+                            let (mut x, mut y) = (gens[i].clone(), gens[j].clone());
+                            let differ = (0..64).any(|_| x.next_u32() != y.next_u32());
+                            r.violation("Hc128Rng:eq_between_generators_from_different_seeds".into(), "pairwise_ne", (i as u64) << 32 | j as u64, json!({
+                                "seed_a": hex(&mk(i)), "seed_b": hex(&mk(j)), "futures_differ": differ,
+                                "note": "a == b must imply equal futures; found by comparing all pairs of M generators"}));
+                            return;
+                        }
+                    }
+                }
+            }
+        }
+        r.covn("pairwise_ne_pairs", pairs);
+        r.evaluations += pairs;
+    });
+    r.merge(rep);
+    r.covn("pairwise_ne_generators", m as u64);
+}
+
 pub fn run(ctx: &Ctx, only: Option<&Only>) -> Report {
     if let Some(o) = only {
         let mut r = Report::new();
@@ -480,6 +545,8 @@ pub fn run(ctx: &Ctx, only: Option<&Only>) -> Report {
             }
         }
     }));
+    pairwise_ne(ctx, &mut total);
+    total.floor("pairwise_ne_pairs", if ctx.tier_thorough || ctx.scale >= 3.0 { 1 << 33 } else { 1 << 28 });
     for n in TYPE_NAMES {
         total.floor(&format!("type:{}", n), 100);
         total.floor(&format!("{}:clone", n), 20);
